@@ -70,14 +70,30 @@ def gen_plan(seed: int, tier: str) -> dict:
             fsize = r.choice(REALISTIC)
             blen = r.choice([0, 1, fsize - 8, fsize - 7, fsize - 6, 2 * fsize, r.randrange(0, 5001)])
         enc = r.random() < 0.4 and fsize >= 24
+        ack_lost = None
+        if not enc and r.random() < 0.15 and fsize >= 12:
+            # a plain request whose last fragment is exactly full, one of whose writes loses its acknowledgement (link stays up)
+            blen = (fsize - 7) + r.choice([1, 2, 3]) * (fsize - 2)
+            ack_lost = r.choice([1, 2, 2, 3])
         eff = fsize - (16 if enc else 0)
         # response lengths aimed at the reassembly boundaries: first fragment carries eff-5 body bytes, continuations eff-2
         aimed = max(0, (eff - 5) + r.choice([0, 1, 2, 3, 5]) * max(1, eff - 2) + r.choice([-1, 0, 0, 1, 2, 3]))
         return {"mode": "ble-func", "fsize": fsize, "blen": max(0, blen), "enc": enc, "rlen": r.choice([0, 1, blen, aimed, aimed, r.randrange(0, 400), r.randrange(0, 3000)]),
                 "no_body": r.random() < 0.1, "policy": r.choice(["max", "max", "header_only_first", "tiny", "random"]), "fault": r.choice([None] * 6 + ["wrong_tid", "no_cont_flag", "wrong_cont_tid"]),
-                "status": r.choice([0] * 8 + [1, 3, 6]), "reps": r.choice([1, 2, 3]), "ops": []}
-    return {"mode": "ble-full", "mtu": r.choice([23, 100, 158, 185, 247, 512]), "wwr": r.choice([0, 0, 20, 182, 244, 509]), "vlen": r.choice([0, 1, 2, 60, 90, 97, 200, 254, 255, 256, 510, 600, 765, r.randrange(0, 3000)]),
+                "status": r.choice([0] * 8 + [1, 3, 6]), "reps": r.choice([1, 2, 3]) if ack_lost is None else 1, "ops": [], "ack_lost": ack_lost}
+    plan = {"mode": "ble-full", "mtu": r.choice([23, 100, 158, 185, 247, 512]), "wwr": r.choice([0, 0, 20, 182, 244, 509]), "vlen": r.choice([0, 1, 2, 60, 90, 97, 200, 254, 255, 256, 510, 600, 765, r.randrange(0, 3000)]),
             "policy": r.choice(["max", "header_only_first", "random"]), "drop_at": r.choice([None] * 5 + [r.randrange(20, 120)]), "ops": []}
+    if r.random() < 0.25:
+        # a write whose acknowledgement is lost while the link stays up, in a request whose LAST fragment is exactly full
+        # (value TLV body = (fs-7) + k*(fs-2) bytes for the encrypted fragment size fs): a duplicated fragment would go unnoticed
+        plan["wwr"], plan["drop_at"] = 0, None
+        fs = max(plan["mtu"], 100) - 3 - 16
+        k = r.choice([1, 2, 3])
+        body = (fs - 7) + k * (fs - 2)
+        hdr = 2 * ((body + 256) // 257 or 1)  # value TLV: 2 header bytes per 255-byte piece
+        plan["vlen"] = max(1, body - hdr + r.choice([0, 0, 0, -1, 1]))
+        plan["ack_lost"] = r.choice([1, 2, 2, 3])  # which write of the put loses its acknowledgement (counted within the put)
+    return plan
 
 
 def execute(plan: dict, ch: Chooser) -> dict:
@@ -141,6 +157,8 @@ def execute_func(plan: dict, ch: Chooser) -> dict:
                 acc.resp_mut = lambda s: dict(s, wrong_continuation_tid=True)
             n_w0 = len(client.writes)
             n_req0 = len(acc.requests)
+            if plan.get("ack_lost") and not plan["no_body"]:
+                client.ack_lost_at = n_w0 + plan["ack_lost"]
             exc = None
             res = None
             try:
@@ -178,6 +196,9 @@ def execute_func(plan: dict, ch: Chooser) -> dict:
                 if exc is None:
                     ctx.violate("bad-response-accepted", fault, f"response with {fault} (fragments {acc.last_response['frags']}) was accepted: returned {res and (res[0], len(res[1]))}")
                 return  # link is unusable after a rejected response
+            if exc is not None and plan.get("ack_lost") and client.ack_lost_at is not None and len(client.writes) >= client.ack_lost_at:
+                ctx.probe("request_failed_after_lost_ack")  # legitimate: the write error propagates to the caller
+                return
             if exc is not None:
                 ctx.violate("request-failed", type(exc).__name__, f"conformant response (status {plan['status']}, {nfr} fragments {acc.last_response['frags'][:6]}, fragment size {fsize}, enc={plan['enc']}) "
                                                                   f"but ble_request raised {exc!r}")
